@@ -171,6 +171,7 @@ func c17History(k *core.Case) {
 	var hist []string
 	prev := -1
 	prev2 := -1
+	var prevSeed uint64
 	var lastAcc []byte // the last genuine datagram the long-lived object accepted
 	var lastAccInit bool
 	var lastAccMsg *abs.Msg
@@ -186,6 +187,13 @@ func c17History(k *core.Case) {
 		}
 		hist = append(hist, opNames[op])
 		seed := k.R.U64()
+		if st > 0 && k.R.Chance(1, 6) {
+			// the random source REPEATS what it delivered for the previous operation (a stuck generator, a VM restored
+			// from a snapshot): a fresh object under that stream gives a result, so must the long-lived one
+			seed = prevSeed
+			k.Count("random_stream_repeated_from_the_previous_step", 1)
+		}
+		prevSeed = seed
 		fresh, _ := libsa.NewKey(raw)
 
 		// prepare the step's input
